@@ -487,7 +487,7 @@ func (s *Server) handleNewConnection(ctx context.Context, rwc io.ReadWriteCloser
 	}
 
 	if clientLogin.GetField(FieldUserIconID).Data != nil {
-		c.Icon = clientLogin.GetField(FieldUserIconID).Data
+		c.Icon = LowTwoBytes(clientLogin.GetField(FieldUserIconID).Data)
 	}
 
 	c.Account = c.Server.AccountManager.Get(login)
